@@ -428,6 +428,13 @@ func execC13(t *testing.T, plan any, r *simkit.Run) {
 		var bad []offered
 		checkBad := func(ctx string) {
 			for _, o := range bad {
+				if _, twin := w.Blocks[o.hash]; twin {
+					// an honest block with the same hash was produced after the offer (the block signature
+					// is not part of the hash: a later honest proposal for the same parent and slot is the
+					// mutant's valid twin). What is on the chain under this hash says nothing about the
+					// mutant any more; it was judged when it arrived (not stored).
+					continue
+				}
 				if victim.Chain.InMainChain(o.hash) || victim.Best() == o.hash {
 					r.Violate("invalid-block-on-main-chain", o.kind, "after %s: block breaking one rule [%s] is on the victim's main chain", ctx, o.desc)
 					return
